@@ -78,6 +78,7 @@ type GNode struct {
 	Kind    string     `json:"kind"` // lambda | pass | sub | tools
 	Natives int        `json:"natives,omitempty"`
 	Fails   bool       `json:"fails,omitempty"`
+	Intr    int        `json:"intr,omitempty"` // lambda: the first Intr executions return compose.InterruptAndRerun
 	SelfCB  bool       `json:"selfcb,omitempty"`  // the lambda fires its callbacks itself (WithLambdaCallbackEnable)
 	DelayUs int        `json:"delay,omitempty"`
 	Chunks  int        `json:"chunks,omitempty"`
@@ -103,6 +104,8 @@ type Case struct {
 	Chain    bool       `json:"chain,omitempty"` // the top level is built with compose.NewChain (AppendLambda / AppendParallel / AppendGraph / AppendPassthrough)
 	Stages   [][]*GNode `json:"stages,omitempty"`
 	InChunks int        `json:"in_chunks,omitempty"`
+	Store    bool       `json:"store,omitempty"` // compiled with a checkpoint store, called with a checkpoint id; an interrupted run is resumed until it ends
+	Eager    bool       `json:"eager,omitempty"` // every graph level is built with compose.NewWorkflow (eager task collection)
 	Seed     uint64     `json:"seed,omitempty"`
 	// stream
 	NH   int    `json:"nh,omitempty"`   // number of handlers passed to InitCallbacks
@@ -363,7 +366,7 @@ type engine struct{}
 
 func (engine) ID() string { return "C10" }
 func (engine) CoqHeader() string {
-	return "From Eino Require Import Base.Util Base.GoSlice Model.Callbacks Model.CallbacksStream Model.CallbacksSched Corr.C10.\nLocal Open Scope N_scope.\n"
+	return "From Eino Require Import Base.Util Base.GoSlice Model.Callbacks Model.CallbacksStream Model.CallbacksSched Model.CallbacksResume Corr.C10.\nLocal Open Scope N_scope.\n"
 }
 func (engine) CoqCaseType() string { return "ccase" }
 
